@@ -71,8 +71,8 @@ class OneDPixCoord(RegionAttribute):
     """
 
     def _validate(self, value):
-        if not (isinstance(value, PixCoord) and not value.isscalar
-                and value.x.ndim == 1):
+        if not (isinstance(value, PixCoord) and np.ndim(value.x) == 1
+                and np.shape(value.x) == np.shape(value.y)):
             raise ValueError(f'{self.name!r} must be a 1D PixCoord')
 
 
